@@ -27,7 +27,7 @@ ASSUMPTIONS = [
 N = 0xFFFFFFFFFFFFFFFFFFFFFFFFFFFFFFFEBAAEDCE6AF48A03BBFD25E8CD0364141
 P = 0xFFFFFFFFFFFFFFFFFFFFFFFFFFFFFFFFFFFFFFFFFFFFFFFFFFFFFFFEFFFFFC2F
 
-ENTRIES = ["mult", "prepared_mult", "double_mult", "multi_mult", "sum_var", "tweak_add", "multi_mult_x_only", "point_from_octets",
+ENTRIES = ["bms.assert_as_valid", "mult", "prepared_mult", "double_mult", "multi_mult", "sum_var", "tweak_add", "multi_mult_x_only", "point_from_octets",
            "bytes_from_prv_key_int", "mult_sec", "dsa.sign_", "dsa.sign", "dsa.sign_recoverable_", "dsa.verify_", "dsa.assert_as_valid_",
            "dsa.recover_pub_keys_", "dsa.recover_pub_key_", "dsa.Signer", "ssa.sign_", "ssa.verify_", "ssa.assert_as_valid_",
            "ssa.batch_verify_", "ssa.Signer", "bms.sign", "bms.verify", "commit_nonce_", "bip32.derive-prv", "bip32.derive-pub",
@@ -462,6 +462,21 @@ def shard_entries(ctx: Ctx) -> None:  # noqa: C901, PLR0912, PLR0915
             else:
                 vsig, vaddr = r.choice([bsig, bsig.b64encode(), bsig.serialize()]), addr
             go("bms.verify", "verify", lambda: (lambda: bms.verify(bmsg, vaddr, vsig)), hostile, (bmsg, vaddr, canon(vsig)))
+            go("bms.assert_as_valid", "assert", lambda: (lambda: bms.assert_as_valid(bmsg, vaddr, vsig)), hostile, (bmsg, vaddr, canon(vsig), "a"))
+            if hostile and r.randrange(3) == 0:
+                # a message signature whose named recovery candidate is the point at infinity (s*K == c*G)
+                from btclib.hashes import magic_message, reduce_to_hlen
+                c_ = int.from_bytes(reduce_to_hlen(magic_message(bmsg)), "big") % N
+                if c_:
+                    Kc = mult(c_)
+                    rr = Kc[0] % N
+                    if rr:
+                        for base in (27, 31, 35, 39):
+                            isig = bms.Sig(base + (Kc[1] & 1), dsa.Sig(rr, 1), check_validity=False)
+                            go("bms.assert_as_valid", "assert-recovers-infinity", lambda isig=isig: (lambda: bms.assert_as_valid(bmsg, addr, isig)), True,
+                               (bmsg, addr, base, "inf"))
+                            go("bms.verify", "verify-recovers-infinity", lambda isig=isig: (lambda: bms.verify(bmsg, addr, isig)), True, (bmsg, addr, base, "infv"))
+                        ctx.stat("crafted:bms-recovers-infinity")
 
             ch = H("c", rnd) if not hostile else r.choice([H("c", rnd), b"", bytes(31), bytes(33)])
             go("commit_nonce_", "commit", lambda: (lambda: commit_nonce_(ch, I.scalar(False) if False else d, b"tag")), hostile, (ch, d))
